@@ -17,17 +17,9 @@ import Driver.C05
 namespace Driver.C17
 open Genshi Genshi.Path Genshi.Sexp Driver.C05
 
-def traceGo (ms : List Matcher) (ns : NsMap) (vs : Vars) (skip : Bool) :
-    List MState → Nat → List Event → List Sexp
-  | _, _, [] => []
-  | sts, depth, e :: es =>
-      let (sts, v) := multiStep ms ns vs sts e
-      if depth > 0 then
-        let depth := if e.isStart then depth + 1 else if e.isEnd then depth - 1 else depth
-        .atom "SKIP" :: traceGo ms ns vs skip sts depth es
-      else
-        let depth := if skip && v == .bool true && e.isStart then 1 else 0
-        valSexp v :: traceGo ms ns vs skip sts depth es
+def optValSexp : Option Val → Sexp
+  | none => .atom "SKIP"
+  | some v => valSexp v
 
 def stratName : Strategy → String
   | .single => "Single" | .simple => "Simple" | .generic => "Generic"
@@ -48,7 +40,7 @@ def handle : List Sexp → Option Sexp
                  | none => false) then pure (.atom "unsupported")
         else
           let (ms, sts) := pathTest ps ic force
-          pure (.list (.atom "ok" :: traceGo ms ns vs skip sts 0 es))
+          pure (.list (.atom "ok" :: (traceCaller ms ns vs skip sts es).map optValSexp))
   | [.atom "can", .str text] =>
       match parse text with
       | .ok ps => some (.list (.atom "ok" :: ps.map fun p =>
